@@ -30,7 +30,7 @@ func mix(x uint64) uint64 {
 func NewTape(seed, run uint64, label string) *Tape {
 	h := fnv.New64a()
 	h.Write([]byte(label))
-	return &Tape{Label: label, state: mix(mix(seed)^mix(run*0x100000001B3+1)^h.Sum64())}
+	return &Tape{Label: label, state: mix(mix(seed) ^ mix(run*0x100000001B3+1) ^ h.Sum64())}
 }
 
 // ReplayTape creates a tape that replays vals.
